@@ -98,6 +98,15 @@ def run(tier, seed, drv):
                                     dev("SINK", {"i": ["SYS", "y"]})],
                      "n_ticks": 7, "noop_ticks_possible": True,
                      "stims": [{"real": t1, "comp": "Z"}, {"real": t1, "comp": "W"}, {"real": t1 + 25_000_000, "comp": rng.choice(["Z", "W"])}]})
+    # a stimulus for a device that is DOWNSTREAM of a periodic device, applied at the very instant of that device's callback:
+    # whether the Interrupt reaches the scheduler before the tick starts, while the downstream device is still waiting for its
+    # upstream in that tick, or after it, is a matter of delivery order at one instant; the device must observe the same.
+    # The upstream's output never changes (the downstream device is passed over by the upstream's ticks).
+    cs = dev("AC", cb={"kind": "period", "p": P})
+    cs["beh"]["outs"] = [{"port": "o", "kind": "const", "v": 5}]
+    for k in (1, 2, 3):
+        scns.append({"components": [cs, dev("XD", {"i": ["AC", "o"]}), dev("XE", {"i": ["XD", "o"]})], "n_ticks": 6, "noop_ticks_possible": True,
+                     "stims": [{"real": k * P, "comp": "XD"}, {"real": (k + 1) * P, "yields": 1, "comp": "XE"}]})
     for i, scn in enumerate(scns):
         SC.stats_into(res, scn)
         base = run_scenario(scn, bus="sync")
